@@ -75,11 +75,97 @@ theorem imgPaths_keys (s : St) (n : Nat) (weightOf : Nat → List Rat) :
   funext o
   cases o <;> rfl
 
+/-- the blank state `restore` starts from -/
+def restoreBlank (s : St) (n workers tsteps : Nat) (occ : List (List Int)) (ensEng : List (List Nat)) : St :=
+  { blank n workers tsteps s.cstep s.trajNum s.seed occ ensEng true (persist s).locked with
+    locked0Ord := (persist s).lockedOrd.map some }
+
 theorem restore_eq (s : St) (n workers tsteps : Nat) (occ : List (List Int)) (ensEng : List (List Nat))
     (weightOf : Nat → List Rat) :
     restore (persist s) n workers tsteps occ ensEng weightOf
-      = loadPaths (blank n workers tsteps s.cstep s.trajNum s.seed occ ensEng true (persist s).locked)
-          (imgPaths s n weightOf) := rfl
+      = loadPaths (restoreBlank s n workers tsteps occ ensEng) (imgPaths s n weightOf) := rfl
+
+/-! `load_paths` never reads the recorded ordinals -/
+
+theorem unlock_ord {s s' : St} {e : Nat} (X : List (Option Nat)) (h : unlock s e = .ok s') :
+    unlock { s with locked0Ord := X } e = .ok { s' with locked0Ord := X } := by
+  unfold unlock at h ⊢
+  simp only []
+  split at h
+  · rename_i hl
+    simp only [Except.ok.injEq] at h
+    subst h
+    first | rfl | (rw [hl])
+  · exact absurd h (by simp)
+  · exact absurd h (by simp)
+
+theorem addTraj_ord {s s' : St} {ens : Int} {pn : Nat} {valid : List Rat} (X : List (Option Nat))
+    (h : addTraj s ens pn valid = .ok s') :
+    addTraj { s with locked0Ord := X } ens pn valid = .ok { s' with locked0Ord := X } := by
+  unfold addTraj at h ⊢
+  simp only [] at h ⊢
+  have hp : padValid { s with locked0Ord := X } ens valid = padValid s ens valid := rfl
+  rw [hp]
+  split at h
+  · exact absurd h (by simp)
+  rename_i x hx
+  split at h
+  · exact absurd h (by simp)
+  rename_i hx0
+  rw [if_neg hx0]
+  split at h
+  · exact absurd h (by simp)
+  rename_i hlen
+  rw [if_neg hlen]
+  split at h
+  · exact absurd h (by simp)
+  rename_i hge
+  rw [if_neg hge]
+  exact unlock_ord X h
+
+theorem loadOne_ord {s s' : St} {ens : Int} {pn : Nat} {valid fr : List Rat} (X : List (Option Nat))
+    (h : loadOne s ens pn valid fr = .ok s') :
+    loadOne { s with locked0Ord := X } ens pn valid fr = .ok { s' with locked0Ord := X } := by
+  unfold loadOne at h ⊢
+  split at h
+  · exact absurd h (by simp)
+  rename_i s1 hadd
+  rw [addTraj_ord X hadd]
+  simp only [Except.ok.injEq] at h ⊢
+  subst h
+  rfl
+
+theorem plus_ord (X : List (Option Nat)) : ∀ (l : List (Nat × List Rat × List Rat)) (s s' : St) (i : Nat),
+    loadPaths.plus s i l = .ok s' →
+    loadPaths.plus { s with locked0Ord := X } i l = .ok { s' with locked0Ord := X } := by
+  intro l
+  induction l with
+  | nil =>
+    intro s s' i h
+    simp only [loadPaths.plus, Except.ok.injEq] at h ⊢
+    subst h; rfl
+  | cons p rest ih =>
+    intro s s' i h
+    obtain ⟨pn, w, fr⟩ := p
+    unfold loadPaths.plus at h ⊢
+    split at h
+    · exact absurd h (by simp)
+    rename_i s1 h1
+    rw [loadOne_ord X h1]
+    exact ih s1 s' (i + 1) h
+
+theorem loadPaths_ord {s s' : St} {paths : List (Nat × List Rat × List Rat)} (X : List (Option Nat))
+    (h : loadPaths s paths = .ok s') :
+    loadPaths { s with locked0Ord := X } paths = .ok { s' with locked0Ord := X } := by
+  unfold loadPaths at h ⊢
+  split at h
+  · exact absurd h (by simp)
+  rename_i pn0 w0 fr0 rest
+  split at h
+  · exact absurd h (by simp)
+  rename_i s1 hplus
+  rw [plus_ord X rest s s1 0 hplus]
+  exact loadOne_ord X h
 
 /-- **`restore (persist s)`**: the restored table has exactly the live paths of `s` as keys (in
     `load_paths` order), each with the vector it had in `s` (zeros if it had none); the data-file
@@ -227,17 +313,25 @@ theorem restore_init {y1 : Sys} {s2 : St} {workers tsteps : Nat} {occ : List (Li
   constructor
   · rw [restore_eq] at h
     have hl0 : (persist y1.s).locked = [] := by simp [persist, hlk]
-    rw [hl0] at h
-    refine init_of_loadPaths y1.s.n workers tsteps y1.s.cstep y1.s.trajNum y1.s.seed occ ensEng true
-      (imgPaths y1.s y1.s.n weightOf) s2 hc.n2 ?_ ?_ ?_ h
-    · unfold imgPaths
-      rw [filterMap_map_length _ _ (livePaths_all_some hc)]
-      simp [livePaths, hc.lenT]
-    · rw [imgPaths_keys]; exact hlnd
-    · intro p hp
-      have : p.1 ∈ (imgPaths y1.s y1.s.n weightOf).map (·.1) := List.mem_map_of_mem hp
-      rw [imgPaths_keys] at this
-      exact hbound p.1 (mem_fm.mp this)
+    have h' := loadPaths_ord [] h
+    have hb : ({ restoreBlank y1.s y1.s.n workers tsteps occ ensEng with locked0Ord := [] } : St)
+        = blank y1.s.n workers tsteps y1.s.cstep y1.s.trajNum y1.s.seed occ ensEng true [] := by
+      unfold restoreBlank
+      rw [hl0]
+      rfl
+    rw [hb] at h'
+    have hI : Init ⟨{ s2 with locked0Ord := [] }, []⟩ := by
+      refine init_of_loadPaths y1.s.n workers tsteps y1.s.cstep y1.s.trajNum y1.s.seed occ ensEng true
+        (imgPaths y1.s y1.s.n weightOf) _ hc.n2 ?_ ?_ ?_ h'
+      · unfold imgPaths
+        rw [filterMap_map_length _ _ (livePaths_all_some hc)]
+        simp [livePaths, hc.lenT]
+      · rw [imgPaths_keys]; exact hlnd
+      · intro p hp
+        have : p.1 ∈ (imgPaths y1.s y1.s.n weightOf).map (·.1) := List.mem_map_of_mem hp
+        rw [imgPaths_keys] at this
+        exact hbound p.1 (mem_fm.mp this)
+    exact ⟨hI.jobs, hI.n2, hI.lenW, hI.lenT, hI.locks, hI.live, hI.inj, hI.locked0, hI.toinit⟩
   · constructor
     · exact hk.nodup_iff.mpr hlnd
     · intro kv hkv
